@@ -20,7 +20,7 @@ class TargetError(Exception):
 
 
 VALID_KINDS = ("py", "arr1")
-INVALID_KINDS = ("nan", "inf", "-inf", "complex", "arr_complex", "vec2", "none")
+INVALID_KINDS = ("nan", "inf", "-inf", "complex", "arr_complex", "vec2", "tuple2", "none")
 HE_INVALID = ("nontuple", "tuple3", "sd_nonpos", "sd_nan", "sd_inf", "sd_none")
 
 
@@ -70,6 +70,8 @@ class HFL(Harness):
                 return to_obj(np.array([complex(1.5, 2.0)], dtype=object)) if not eng.concrete else np.array([complex(1.5, float(yim) if float(yim) != 0 else 1.0)])
             if kind == "vec2":
                 return np.array([1.0, 2.0])
+            if kind == "tuple2":          # a (value, SD) pair although the noise is not specified: not a scalar
+                return (y, 0.5)
             if kind == "none":
                 return None
             return y
